@@ -772,6 +772,16 @@ Proof.
     destruct (owner_needs_chown _ _ M2) as [A|A]; [destruct predir; discriminate | exact A].
 Qed.
 
+(* the gate is exactly hex::decode's acceptance: an odd number of hex digits is refused like any other
+   undecodable value (without the gate it would reach attest_key's Error::Hex(.., OddLength) line) *)
+Lemma odd_length_is_not_hex :
+  hex_decode_accepts false true = false /\ hex_decode_accepts true false = false
+  /\ hex_decode_accepts true true = true /\ hex_decode_accepts false false = false
+  /\ vector (run current [Poll (SOk true None 1) (KOk 1 (hex_decode_accepts false true)) AOk; ClientRequest]) = []
+  /\ vector (run only_body_repair [Poll (SOk true None 1) (KOk 1 (hex_decode_accepts false true)) AOk])
+     = [(KeyFile, [1%N]); (Log, [1%N]); (Stdout, [1%N])].
+Proof. vm_compute. repeat split. Qed.
+
 (* non-vacuity *)
 Lemma nonvacuous_examples :
   (* a latch, a rotation, a disable/enable cycle and a restart: two key files, nothing else *)
